@@ -486,5 +486,108 @@ func c14R7(p *engine.Prog, r *engine.Report, la *engine.LockAnalysis) {
 		}
 	}
 	r.Floor("C14-R7", 6, "lazy getters of StateDB / IdentityStateDB")
+	c14R8(p, r)
 	_ = n
+}
+
+// c14R8: a per-sender queue that may have been created on the spot (newSortedTxs / newTxMap) and has
+// accepted a transaction is published in the pool's map on the success path of that Add — otherwise
+// the transaction stays in `all` but in neither queue.
+func c14R8(p *engine.Prog, r *engine.Report) {
+	n := 0
+	for _, f := range funcsOfPkg(p, "core/mempool") {
+		if f.Blocks == nil || isTestish(p.Pos(f.Pos())) || f.Signature.Recv() == nil {
+			continue
+		}
+		if rn := engine.NamedOf(f.Signature.Recv().Type()); rn == nil || rn.Obj().Name() != "TxPool" {
+			continue
+		}
+		for _, c := range engine.Calls(f) {
+			cal := c.Common().StaticCallee()
+			if cal == nil || (cal.Name() != "newSortedTxs" && cal.Name() != "newTxMap") {
+				continue
+			}
+			cv, isV := c.(*ssa.Call)
+			if !isV {
+				continue
+			}
+			// values that may be the fresh queue
+			fresh := map[ssa.Value]bool{}
+			var fw func(v ssa.Value)
+			fw = func(v ssa.Value) {
+				if fresh[v] || v.Referrers() == nil {
+					return
+				}
+				fresh[v] = true
+				for _, ref := range *v.Referrers() {
+					if ph, isPhi := ref.(*ssa.Phi); isPhi {
+						fw(ph)
+					}
+				}
+			}
+			fw(cv)
+			stores := map[*ssa.BasicBlock]bool{}
+			for _, b := range f.Blocks {
+				for _, ins := range b.Instrs {
+					if mu, isMU := ins.(*ssa.MapUpdate); isMU && fresh[engine.Unwrap(mu.Value)] {
+						if u, isLoad := engine.Unwrap(mu.Map).(*ssa.UnOp); isLoad {
+							if o, _, okF := engine.FieldOf(u.X); okF && o == "TxPool" {
+								stores[b] = true
+							}
+						}
+					}
+				}
+			}
+			for _, a := range engine.Calls(f) {
+				if !engine.CallNameIs(a, "Add") || !engine.HasRecv(a) || !fresh[engine.Unwrap(engine.CallArgs(a)[0])] {
+					continue
+				}
+				av, isAV := a.(*ssa.Call)
+				if !isAV {
+					continue
+				}
+				n++
+				r.Fn(engine.FuncName(f))
+				// success edges: Add(...) == nil (through a spilled err as well)
+				ok, found := true, false
+				for _, i := range engine.Ifs(f) {
+					x, y, isEq, okC := eqCond(i.Cond)
+					if !okC {
+						continue
+					}
+					var other ssa.Value
+					// the test of this very Add's result (a later test of a merged err is another decision)
+					if engine.Origin(x) == ssa.Value(av) {
+						other = y
+					} else if engine.Origin(y) == ssa.Value(av) {
+						other = x
+					}
+					if k, isK := other.(*ssa.Const); other == nil || !isK || !k.IsNil() {
+						continue
+					}
+					found = true
+					succ := i.Block().Succs[1]
+					if isEq {
+						succ = i.Block().Succs[0]
+					}
+					if stores[succ] {
+						continue
+					}
+					hdr := engine.LoopHeaderOf(av.Block())
+					for b := range engine.ReachAvoiding(f, succ, nil, stores) {
+						if b == hdr {
+							ok = false
+						}
+						if len(b.Instrs) > 0 {
+							if _, isRet := b.Instrs[len(b.Instrs)-1].(*ssa.Return); isRet {
+								ok = false
+							}
+						}
+					}
+				}
+				r.Check(found && ok, "C14-R8", uniq(r, engine.RelName(f)+"|a queue created on the spot is published once it holds a transaction"), p.InstrPos(a), "map store on the success path of Add", "the per-sender queue may have been created just above and is not stored in the pool's map after a successful Add: the transaction is removed from pending (or counted in `all`) but sits in an object nobody references — it is never offered for a block and blocks every later nonce of the sender")
+			}
+		}
+	}
+	r.Floor("C14-R8", 3, "put, putToPending, movePendingTxsToExecutable")
 }
